@@ -117,6 +117,41 @@ Eval vm_compute in (length tab, match first_bad with None => None | Some (n, p, 
         return int(m.group(1)), None
     return int(m.group(1)), 'generated router_next_hop disagrees with the compiled router at (n,p,me,scheme)=(%s)' % m.group(3)
 
+def layout_check(tab, tier):
+    """The layout tables the real ygm::comm builds under simulated multi-node placements (blocks of ppn ranks per node) are the
+    block placement, and the real router on the real layout gives the next hops of the enumeration table."""
+    exe, err = compile_sim('layout_enum', ['harness/layout_enum.cpp'])
+    if exe is None:
+        return 0, [{'what': 'layout_enum harness does not compile against the current headers', 'log': (err or '')[-1200:]}]
+    shapes = [(2, 2), (3, 2), (2, 3), (4, 1), (1, 4), (3, 3), (4, 2)] + ([] if tier == 'quick' else [(5, 2), (2, 5), (6, 1), (3, 4), (4, 3), (5, 3)])
+    fails, n = [], 0
+    for i, (nn, ppn) in enumerate(shapes):
+        r = simrun(exe, nn * ppn, [], ppn=ppn, seed=7 + i, policy='uniform', wall=60)
+        if r['verdict'] != 'ok':
+            fails.append({'what': 'layout_enum on %d nodes x %d ranks ended with %s %s' % (nn, ppn, r['verdict'], r['detail']), 'cmd': r['cmd']}); continue
+        size = nn * ppn
+        for l in r['out']:
+            if l.startswith('L ') and ':' in l:
+                me = int(l.split()[1])
+                parts = [x.split() for x in l.split(':', 1)[1].split('|')]
+                want = [[str(size), str(nn), str(ppn), str(me // ppn), str(me % ppn)],
+                        [str((me // ppn) * ppn + k) for k in range(ppn)], [str(a * ppn + me % ppn) for a in range(nn)],
+                        [str(x // ppn) for x in range(size)], [str(x % ppn) for x in range(size)]]
+                n += 1
+                names = ['(comm_size, node_size, local_size, node_id, local_id)', 'local_ranks', 'strided_ranks', 'rank_to_node', 'rank_to_local']
+                for nm, g, w in zip(names, parts, want):
+                    if g != w:
+                        fails.append({'what': 'layout of rank %d on %d nodes x %d ranks: %s is %s, block placement gives %s' % (me, nn, ppn, nm, g, w), 'cmd': r['cmd']})
+            elif l.startswith('H ') and ':' in l:
+                t = l.split(':', 1)[0].split()
+                me, sc = int(t[1]), int(t[2])
+                hops = l.split(':', 1)[1].split()
+                ref = tab.get((nn, ppn, me, sc)) if tab else None
+                n += 1
+                if ref is not None and [str(x) for x in ref] != hops:
+                    fails.append({'what': 'next hops of rank %d (scheme %d) on the layout built by ygm::comm for %d nodes x %d ranks are %s; on the block-placement tables the router gives %s' % (me, sc, nn, ppn, hops, ref), 'cmd': r['cmd']})
+    return n, fails
+
 def run(tier, seed, replay=None):
     res = Result('C04', tier, seed)
     maxn = maxp = 6 if tier == 'quick' else 10
@@ -136,6 +171,8 @@ def run(tier, seed, replay=None):
     ofails = []
     if tab is not None:
         nroutes, nontriv, ofails = oracle(tab, maxn, maxp)
+    nlayout, lfails = layout_check(tab, tier)
+    ofails = list(ofails) + lfails
     if ofails:
         res.violation('enum', {'property': 'C04', 'kind': 'enumeration', 'bounds': [maxn, maxp], 'failures': ofails,
                                'replay': 'harness/router_enum.cpp %d %d on the current /repo; then vlib/c04.py oracle' % (maxn, maxp)},
@@ -169,10 +206,11 @@ def run(tier, seed, replay=None):
         'rule': 'every (n,p,scheme,src,dst) with n,p <= %d; a route is non-trivial when it has more than one hop' % maxn,
         'exhaustive': True,
         'traces_validated_against_impl': nrows,
+        'layout_rows_compared_under_simmpi': nlayout,
         'samples': [{'n': 3, 'p': 4, 'scheme': 'NLNR', 'src': 0, 'dst': 11,
                      'next_hops_from_compiled_router': [tab[(3, 4, 0, 2)][11], tab[(3, 4, 2, 2)][11], tab[(3, 4, 10, 2)][11]]}] if tab and (3, 4, 0, 2) in tab else [],
         'trusted_base': TRUSTED_COMMON + ['tools/cxx2coq.py (clang 14 JSON AST -> Gallina) and coq/Gen/CArith.v (C integer semantics)',
-                                         'block placement of ranks (layout tables modelled by Layout.block_layout; layout.hpp accessors are generated)',
+                                         'block placement of ranks (layout tables modelled by Layout.block_layout; layout.hpp accessors are generated); the tables ygm::comm builds from MPI_Comm_split_type / MPI_Comm_split under simmpi are compared with the block placement, and the router on them with the enumeration table (harness/layout_enum.cpp)',
                                          'g++ 12 / harness/router_enum.cpp for the compiled-code side of the table comparison'],
     })
     res.assumptions = ['ranks are placed in blocks of p per node (property statement)', 'n*p <= 2^30 (int arithmetic exact)']
